@@ -710,8 +710,11 @@ class ManifestRecursiveLoader:
                 for d in skip_dirs:
                     dirnames.remove(d)
                 # if we are planning to recur, record this dir
+                # NB: the top directory may come with a trailing slash
+                # that os.path.dirname() of its children does not have
                 if dirnames:
-                    directory_ids[dirpath] = parent_dir_ids + [dir_id]
+                    directory_ids[os.path.normpath(dirpath)] = (
+                        parent_dir_ids + [dir_id])
 
                 yield (dirpath, relpath, dirnames, filenames, dirdict)
 
@@ -1092,8 +1095,11 @@ class ManifestRecursiveLoader:
             for d in skip_dirs:
                 dirnames.remove(d)
             # if we are planning to recur, record this dir
+            # NB: the top directory may come with a trailing slash
+            # that os.path.dirname() of its children does not have
             if dirnames:
-                directory_ids[dirpath] = parent_dir_ids + [dir_id]
+                directory_ids[os.path.normpath(dirpath)] = (
+                    parent_dir_ids + [dir_id])
 
             # check for unregistered Manifest
             for mname in manifest_filenames:
@@ -1229,8 +1235,11 @@ class ManifestRecursiveLoader:
             for d in skip_dirs:
                 dirnames.remove(d)
             # if we are planning to recur, record this dir
+            # NB: the top directory may come with a trailing slash
+            # that os.path.dirname() of its children does not have
             if dirnames:
-                directory_ids[dirpath] = parent_dir_ids + [dir_id]
+                directory_ids[os.path.normpath(dirpath)] = (
+                    parent_dir_ids + [dir_id])
 
             new_entries = []
             for f in filenames:
